@@ -3,13 +3,18 @@ import numpy as np
 from props import _discrete as D
 
 ENV_BY_TIER = {"quick": {"NUMBA_DISABLE_JIT": "1"}, "thorough": {}}
+ENV = {"XDG_CACHE_HOME": "/verif/.work/disc/cache"}
 COQ_REQ = ("lib.Num", "model.Discrete", "model.DiscreteFloat")
 
 RULE = ("single trees: every rooted shape with 2-5 leaves (polytomies included) x random per-edge mutation "
         "counts 0-3 x prior grids (2-6 timepoints, random positive rows, often 0 at time 0); multi-tree: msprime "
         "(2-6 contemporaneous samples, recombination, multiple mergers) with non-sample nodes renumbered at random, "
         "and re-timed (valid, order-changing), so children have several parents with different chosen timepoints and the first "
-        "edge of a group is often not the one with the smallest parent index; both probability spaces, eps in "
+        "edge of a group is often not the one with the smallest parent index; 20% with a chain of unary nodes above a local "
+        "root; about 40% of all inputs with valid-but-unusual decorations (vlib.gen.exotic: extra flag bits, ALL nodes "
+        "renumbered so that samples are not listed first, mutation-free sites, allele strings, populations, mutation "
+        "times), 15% with exactly tied node times; cache_inside on/off, num_threads None/1(/2), numpy-typed option "
+        "values; thorough: 12 larger inputs (12-25 samples, oracle only); both probability spaces, eps in "
         "{1e-8,1e-6,1e-3,0.1}; a case is non-trivial when some node has >= 2 distinct parents or the chosen index "
         "differs from argmax(inside); distinct by content hash."
         "About half of the inputs carry 1-3 extra mutations that sit on NO edge (above the root of the local tree; valid tskit input); the references count only mutations on edges, computed from the tables.")
@@ -30,7 +35,7 @@ def gen_cases(ctx, n_single, n_multi):
         d = D.canon(d)
         if rng.random() < 0.5:
             d, _ = D.renumber(d, rng)
-        cases.append(D.make_case(rng, d, kind="single"))
+        cases.append(D.make_case(rng, d, kind="single", **D.random_options(rng, ctx.tier == "thorough")))
     for _ in range(n_multi):
         d = D.sim_dict(rng, n=rng.randint(2, 7))
         if rng.random() < 0.7:
@@ -39,7 +44,15 @@ def gen_cases(ctx, n_single, n_multi):
             # input times in an order unrelated to the timepoints that will be chosen, so that the
             # first edge of a child's group (youngest parent by INPUT time) need not be the minimum
             d = D.retime(d, rng, "free") or d
-        cases.append(D.make_case(rng, d, kind="multi"))
+        if rng.random() < 0.2:
+            d = D.add_unary_chain(d, rng) or d          # unary nodes above a local root
+        cases.append(D.make_case(rng, d, kind="multi", **D.random_options(rng, ctx.tier == "thorough")))
+    if ctx.tier == "thorough":
+        for _ in range(12):       # a few larger inputs (oracle only; logarithmic space cannot underflow)
+            d = D.sim_dict(rng, n=rng.randint(12, 25), big=True)
+            d, _ = D.renumber(d, rng)
+            cases.append(D.make_case(rng, d, kind="big", space=D.LOG, grid=D.random_grid(rng, gmax=6),
+                                     **D.random_options(rng, True)))
     return cases
 
 
@@ -48,9 +61,11 @@ def run_impl(case):
     import tsdate
     ts = D.ts_from_dict(case["ts"])
     pr = D.make_priors(case, ts)
-    _new, fit = tsdate.maximization(ts, mutation_rate=case["mu"], priors=pr, eps=case["eps"],
-                                    probability_space=case["space"], return_fit=True,
-                                    record_provenance=False)
+    _new, fit = tsdate.maximization(ts, mutation_rate=D.opt(case, "mu", case["mu"]), priors=pr,
+                                    eps=D.opt(case, "eps", case["eps"]), probability_space=case["space"],
+                                    num_threads=case.get("num_threads"),
+                                    cache_inside=D.opt(case, "cache", bool(case.get("cache_inside"))),
+                                    return_fit=True, record_provenance=False)
     return ts, fit
 
 
@@ -115,7 +130,7 @@ def run(ctx, model_ok=True):
         s = D.summary(case)
         s["idx"] = idx
         ctx.case(s, nontrivial=nt, kind=case["space"] + "/" + case["kind"] + "/" + kind)
-        if model_ok:
+        if model_ok and case["kind"] != "big":
             name = "c%d" % k
             body.append(D.coq_common(case, name, tbl) + D.coq_max_term(case, name, order, ins))
             expect.append((name, case, idx))
